@@ -4,7 +4,7 @@
 # passes the stable baseline, then runs the named checks against the copy (VERIF_REPO) and expects
 # exit 1 (VIOLATION). Prints one line per check: CAUGHT / MISSED / INCONCLUSIVE. Removes the copy.
 set -u
-patch="$1"; shift
+patch="$(realpath "$1")"; shift
 name=$(basename "$patch" .patch)
 work=$(mktemp -d /tmp/selftest-$name-XXXX)
 trap 'rm -rf "$work"' EXIT
